@@ -3,6 +3,8 @@ package labelpatch
 // C12 — pod batch labels identify exactly the pods of each batch (DESIGN.md §6 C12).
 
 import (
+	"k8s.io/apimachinery/pkg/types"
+	"sigs.k8s.io/controller-runtime/pkg/client"
 	"strconv"
 
 	"github.com/openkruise/rollouts/api/v1beta1"
@@ -336,5 +338,54 @@ func VerifC12_OrderedFilterIsOrderIndependent() {
 	verifrt.Assert(same, "C12.orderedFilter.selectionIndependentOfListOrder")
 	for _, v := range na {
 		verifrt.Assert(v == 1, "C12.orderedFilter.noDuplicates")
+	}
+}
+
+// VerifC12_ReplicaSetOwnedPodsGetTheirOwnRevision: pods of a native Deployment carry no controller-revision-hash; the
+// patcher derives it from the ReplicaSet that owns each pod.  With pods of the old and the new ReplicaSet in one
+// list (any order), every pod is stamped with the hash of *its own* ReplicaSet, and only pods of the new ReplicaSet
+// receive rollout-id / batch-id.  (The hash function is replaced by a harness function of the template so that both
+// executions agree on its values.)
+func VerifC12_ReplicaSetOwnedPodsGetTheirOwnRevision() {
+	verifrt.Stub("github.com/openkruise/rollouts/pkg/util.ComputeHash", func(template *corev1.PodTemplateSpec, collisionCount *int32) string {
+		return "h-" + template.Labels["ver"]
+	})
+	isCtrl := true
+	mkRS := func(name, ver string) *apps.ReplicaSet {
+		rs := &apps.ReplicaSet{ObjectMeta: metav1.ObjectMeta{Namespace: "ns", Name: name, UID: types.UID("uid-" + name)}}
+		rs.Spec.Template.Labels = map[string]string{"app": "w", "ver": ver, apps.DefaultDeploymentUniqueLabelKey: "pth-" + ver}
+		return rs
+	}
+	rsOld, rsNew := mkRS("rs-old", "v1"), mkRS("rs-new", "v2")
+	mkPod := func(i int, rs *apps.ReplicaSet) *corev1.Pod {
+		return &corev1.Pod{ObjectMeta: metav1.ObjectMeta{Namespace: "ns", Name: "pod-" + strconv.Itoa(i), Labels: map[string]string{"app": "w"},
+			OwnerReferences: []metav1.OwnerReference{{APIVersion: "apps/v1", Kind: "ReplicaSet", Name: rs.Name, UID: rs.UID, Controller: &isCtrl}}}}
+	}
+	np := verifrt.Concrete(verifrt.IntRange("nPods", 2, 3))
+	var list []*corev1.Pod
+	owner := map[string]*apps.ReplicaSet{}
+	for i := 0; i < np; i++ {
+		rs := rsOld
+		if verifrt.Bool("pod.ofNewReplicaSet") {
+			rs = rsNew
+		}
+		p := mkPod(i, rs)
+		owner[p.Name] = rs
+		list = append(list, p)
+	}
+	cli := &symclient.Client{Objects: []client.Object{rsOld, rsNew}}
+	batches := []v1beta1.ReleaseBatch{{CanaryReplicas: intstr.FromInt(np)}}
+	r := &realPatcher{Client: cli, logKey: klog.ObjectRef{Namespace: "ns", Name: "br"}, batches: batches}
+	ctx := &batchcontext.BatchContext{RolloutID: c12RolloutID, UpdateRevision: "h-v2", Replicas: int32(np), CurrentBatch: 0, Pods: list}
+	err := r.patchPodBatchLabel(list, ctx)
+	verifrt.Assert(err == nil, "C12.rsOwned.noError")
+	for _, w := range cli.Writes("patch", "Pod") {
+		rs := owner[w.Obj.GetName()]
+		if h, ok := verifrt.JSONGet(w.Body, "metadata", "labels", apps.ControllerRevisionHashLabelKey); ok {
+			verifrt.Assert(h == "h-"+rs.Spec.Template.Labels["ver"], "C12.rsOwned.podStampedWithItsOwnReplicaSetsRevision")
+		}
+		if id, ok := verifrt.JSONGet(w.Body, "metadata", "labels", v1beta1.RolloutIDLabel); ok {
+			verifrt.Assert(id == c12RolloutID && rs == rsNew, "C12.rsOwned.onlyNewReplicaSetPodsLabelled")
+		}
 	}
 }
